@@ -513,4 +513,215 @@ theorem closedB_spec {S : Spec} {U : List File} (h : closedB S U = true) :
   have h2 := List.all_eq_true.1 h1 (some x) hx
   simpa using h2
 
+/-! ## faults outside the import closure do not matter -/
+
+/-- no file of `U` has a syntax error, a failing processor or an import statement without target -/
+structure NoFaultOn (S : Spec) (U : List File) : Prop where
+  syn : ∀ g ∈ U, S.syntaxErr g = false
+  obj : ∀ g ∈ U, S.objFault g = false
+  mod : ∀ g ∈ U, S.modFault g = false
+  calls : ∀ g ∈ U, none ∉ S.calls g
+
+theorem NoFault.on {S : Spec} (h : NoFault S) (U : List File) : NoFaultOn S U :=
+  ⟨fun g _ => h.syn g, fun g _ => h.obj g, fun g _ => h.mod g, fun g _ => h.calls g⟩
+
+def ParseNoFailU (U : List File) (parse : Parse) : Prop := ∀ st g k, g ∈ U → (parse st g).2.1 ≠ .fail k
+
+theorem loadModelWith_nofailU {U : List File} {parse : Parse} (hp : ParseNoFailU U parse) (st : St) (i : Inst)
+    (g : File) (hg : g ∈ U) (k : Kind) : (loadModelWith parse st i g).2 ≠ .fail k := by
+  unfold loadModelWith
+  split
+  · intro h; cases h
+  · split
+    · intro h; cases h
+    · have := hp st g
+      cases hpe : parse st g with
+      | mk st' rj =>
+        obtain ⟨r', j⟩ := rj
+        rw [hpe] at this
+        cases r' with
+        | ok => intro h; cases h
+        | fail k' => exact absurd rfl (this k' hg)
+        | fuel => intro h; cases h
+
+theorem loadCalls_nofailU {U : List File} {parse : Parse} (hp : ParseNoFailU U parse) (i : Inst) :
+    ∀ (cs : List (Option File)) (st : St) (k : Kind), none ∉ cs → (∀ g, some g ∈ cs → g ∈ U) →
+      (loadCalls parse i st cs).2 ≠ .fail k := by
+  intro cs
+  induction cs with
+  | nil => intro st k _ _ h; simp only [loadCalls] at h; cases h
+  | cons c cs ih =>
+    intro st k hn hcs
+    simp only [loadCalls]
+    cases c with
+    | none => exact absurd List.mem_cons_self hn
+    | some g =>
+      simp only
+      have h1 := loadModelWith_nofailU hp (st.registerSelf i) i g (hcs g List.mem_cons_self)
+      cases hl : loadModelWith parse (st.registerSelf i) i g with
+      | mk st2 r2 =>
+        rw [hl] at h1
+        cases r2 with
+        | ok => exact ih st2 k (fun h => hn (List.mem_cons_of_mem _ h)) (fun g' h => hcs g' (List.mem_cons_of_mem _ h))
+        | fail k' => exact absurd rfl (h1 k')
+        | fuel => intro h; cases h
+
+theorem internal_nofailU (S : Spec) (U : List File) (hU : ∀ h ∈ U, ∀ x, some x ∈ S.calls h → x ∈ U)
+    (hS : NoFaultOn S U) : ∀ fuel, ParseNoFailU U (internal S fuel)
+  | 0 => by intro st g k _ h; simp only [internal] at h; cases h
+  | fuel + 1 => by
+    intro st g k hg
+    rw [internal_unfold]
+    simp only [hS.syn g hg, Bool.false_eq_true, if_false, hS.mod g hg]
+    have h1 := loadCalls_nofailU (internal_nofailU S U hU hS fuel) st.next (S.calls g) (afterCallback S st g)
+    cases hl : loadCalls (internal S fuel) st.next (afterCallback S st g) (S.calls g) with
+    | mk st2 r2 =>
+      rw [hl] at h1
+      cases r2 with
+      | ok => intro h; cases h
+      | fuel => intro h; cases h
+      | fail k' => exact absurd rfl (h1 k' (hS.calls g hg) (hU g hg))
+
+/-- the files of the models constructed by the imports of the main model are reachable from the main file -/
+theorem mainCalls_models_reach (S : Spec) (fuel : Nat) {b : St} (hwf : WF b) (f : File) (hfk : f ∉ b.all.keys)
+    {st1 : St} (hl : loadCalls (internal S fuel) b.next (mainStart S b f) (S.calls f) = (st1, .ok)) :
+    ∀ m ∈ modelsOf st1 b.next, Reach S b.all.keys f (st1.fileOf m) := by
+  have hB := hwf.baseOK
+  obtain ⟨hIa, hGa, _, hlt, hca, _, hfa, _⟩ := mainStart_facts S hwf f (fun _ => hfk)
+  have hka := mainStart_keys S b f hfk
+  have hsafe := loadCalls_safe (internal_safe hB S fuel) _ (Nat.le_refl _) (S.calls f) _ st1 .ok hIa hGa hlt hca hl
+  obtain ⟨new', hn, _⟩ := loadCalls_reads S (internal_safe hB S fuel) (internal_reads hB S fuel) _
+    (Nat.le_refl _) f hfk (S.calls f) _ st1 .ok hIa hGa hlt hca hfa (fun c hc => hc) hl
+  obtain ⟨hG1, _, _⟩ := hsafe.2 rfl
+  have hS1 := loadCalls_stable (internal_stable S fuel) b.next (S.calls f) (mainStart S b f)
+  rw [hl] at hS1
+  have hf1 : st1.fileOf b.next = f := by rw [hS1.fileOf _ hlt]; exact hfa
+  intro m hm
+  rcases modelsOf_file hwf hsafe.1 hG1 f hf1 m hm with hmf | ⟨hmk, hmn⟩
+  · rw [hmf]; exact Reach.refl hfk
+  · rcases hn.keys rfl _ hmk with h1 | h1 | h1
+    · rcases hka _ h1 with h2 | h2
+      · exact absurd h2 hmn
+      · rw [h2]; exact Reach.refl hfk
+    · exact hn.reach _ h1
+    · have : st1.fileOf m = f := (Option.some.inj h1)
+      rw [this]; exact Reach.refl hfk
+
+theorem finishMain_nofaultU (S : Spec) (U : List File) (hS : NoFaultOn S U) (b : St) (f : File) (st1 : St)
+    (hf : f ∈ U) (hm : ∀ m ∈ modelsOf st1 b.next, st1.fileOf m ∈ U) :
+    (finishMain S b f st1).2.1 = .ok ∨ (finishMain S b f st1).2.1 = .fail .semantic := by
+  unfold finishMain
+  simp only [hS.mod f hf, Bool.false_eq_true, if_false]
+  split
+  · exact Or.inr rfl
+  · have : (List.any (modelsOf st1 b.next) fun m =>
+        S.objFault (((st1.setTargets S (modelsOf st1 b.next)).endConstruction
+          (modelsOf st1 b.next)).fileOf m)) = false := by
+      apply List.any_eq_false.2
+      intro m hmm
+      have : ((st1.setTargets S (modelsOf st1 b.next)).endConstruction (modelsOf st1 b.next)).fileOf m
+          = st1.fileOf m := rfl
+      rw [this, hS.obj _ (hm m hmm)]
+      simp
+    unfold modelsOf at this
+    simp only [this, Bool.false_eq_true, if_false]
+    simp
+
+theorem loadMain_nofaultU (S : Spec) (U : List File) (hU : ∀ h ∈ U, ∀ x, some x ∈ S.calls h → x ∈ U)
+    (hS : NoFaultOn S U) (fuel : Nat) (st0 : St) (f : File) (hfU : f ∈ U) (hwf : WF (base S st0)) :
+    (loadMain S fuel st0 f).2.1 = .ok ∨ (loadMain S fuel st0 f).2.1 = .fail .semantic ∨
+      (loadMain S fuel st0 f).2.1 = .fuel := by
+  rw [loadMain_unfold]
+  simp only [hS.syn f hfU, hS.mod f hfU, Bool.false_eq_true, if_false]
+  split
+  · exact Or.inl rfl
+  · rename_i hnc
+    have hfk : f ∉ (base S st0).all.keys := by
+      cases hg : S.glob with
+      | true =>
+        have : (base S st0).all.has f = false := by
+          cases hh : (base S st0).all.has f
+          · rfl
+          · rw [hg, hh] at hnc; simp at hnc
+        exact (Dict.has_false_iff _ _).1 this
+      | false => simp [base, hg, Dict.keys]
+    have h1 := loadCalls_nofailU (internal_nofailU S U hU hS fuel) (base S st0).next (S.calls f)
+      (mainStart S (base S st0) f)
+    cases hl : loadCalls (internal S fuel) (base S st0).next (mainStart S (base S st0) f) (S.calls f) with
+    | mk st1 r1 =>
+      rw [hl] at h1
+      cases r1 with
+      | fuel => exact Or.inr (Or.inr rfl)
+      | fail k' => exact absurd rfl (h1 k' (hS.calls f hfU) (hU f hfU))
+      | ok =>
+        simp only
+        have hr := mainCalls_models_reach S fuel hwf f hfk hl
+        rcases finishMain_nofaultU S U hS (base S st0) f st1 hfU
+            (fun m hm => Reach.mem_closed hU hfU (hr m hm)) with h | h
+        · exact Or.inl h
+        · exact Or.inr (Or.inl h)
+
+theorem loadStr_nofaultU (S : Spec) (U : List File) (hU : ∀ h ∈ U, ∀ x, some x ∈ S.calls h → x ∈ U)
+    (hS : NoFaultOn S U) (fuel : Nat) (st0 : St) (a : File) (haU : a ∈ U) (hwf : WF (base S st0))
+    (ha : a ∉ (base S st0).all.keys) :
+    (loadStr S fuel st0 a).2.1 = .ok ∨ (loadStr S fuel st0 a).2.1 = .fail .semantic ∨
+      (loadStr S fuel st0 a).2.1 = .fuel := by
+  cases hc : S.calls a with
+  | cons c cs =>
+    rw [loadStr_eq_loadMain S fuel st0 a ha (Or.inr (by rw [hc]; exact List.cons_ne_nil _ _))]
+    exact loadMain_nofaultU S U hU hS fuel st0 a haU hwf
+  | nil =>
+    rw [loadStr_nocalls S fuel st0 a hc]
+    simp only [hS.syn a haU, Bool.false_eq_true, if_false]
+    obtain ⟨hI, hG, _, _, _, _⟩ := strStart_facts S hwf a
+    have hm : ∀ m ∈ modelsOf (strStart S (base S st0) a) (base S st0).next,
+        (strStart S (base S st0) a).fileOf m ∈ U := by
+      intro m hm
+      rcases modelsOf_file hwf hI hG a (strStart_fileOf S _ a) m hm with hmf | ⟨hmk, hmn⟩
+      · rw [hmf]; exact haU
+      · exact absurd hmk hmn
+    rcases finishMain_nofaultU S U hS (base S st0) a _ haU hm with h | h
+    · exact Or.inl h
+    · exact Or.inr (Or.inl h)
+
+theorem Entry.run_nofaultU (S : Spec) (U : List File) (hU : ∀ h ∈ U, ∀ x, some x ∈ S.calls h → x ∈ U)
+    (hS : NoFaultOn S U) (fuel : Nat) (st0 : St) (e : Entry) (hmU : e.main ∈ U) (hwf : WF (base S st0))
+    (he : e.Admissible S st0) :
+    (e.run S fuel st0).2.1 = .ok ∨ (e.run S fuel st0).2.1 = .fail .semantic ∨ (e.run S fuel st0).2.1 = .fuel := by
+  cases e with
+  | file f => exact loadMain_nofaultU S U hU hS fuel st0 f hmU hwf
+  | str a => exact loadStr_nofaultU S U hU hS fuel st0 a hmU hwf he
+
+/-- a load with enough fuel whose import-closed set of files has no fault and whose references all have a
+visible definition succeeds — whatever is wrong with files outside that set -/
+theorem Entry.run_succeedsU (S : Spec) (U : List File)
+    (hU : ∀ h ∈ U, ∀ x, some x ∈ S.calls h → x ∈ U) (hS : NoFaultOn S U) (fuel : Nat) (st0 : St) (e : Entry)
+    (hmU : e.main ∈ U) (hwf : WF (base S st0)) (he : e.Admissible S st0) (hn : U.length ≤ fuel)
+    (hv : ∀ g, Reach S (base S st0).all.keys e.main g → ∀ n ∈ S.refs g, visible S (base S st0) g n = true) :
+    (e.run S fuel st0).2.1 = .ok := by
+  rcases Entry.run_nofaultU S U hU hS fuel st0 e hmU hwf he with h | h | h
+  · exact h
+  · exfalso
+    obtain ⟨g, n, hr, hn', hvis⟩ := Entry.run_semantic S fuel st0 e hwf he
+      (show e.run S fuel st0 = ((e.run S fuel st0).1, .fail .semantic, (e.run S fuel st0).2.2) by rw [← h])
+    rw [hv g hr n hn'] at hvis
+    cases hvis
+  · exact absurd h (Entry.run_fuel S U hU fuel st0 e hmU hwf he hn)
+
+/-- decidable form of `NoFaultOn` -/
+def noFaultB (S : Spec) (U : List File) : Bool :=
+  U.all fun g => !S.syntaxErr g && !S.objFault g && !S.modFault g && !(S.calls g).contains none
+
+theorem noFaultB_spec {S : Spec} {U : List File} (h : noFaultB S U = true) : NoFaultOn S U := by
+  have key : ∀ g ∈ U, (!S.syntaxErr g && !S.objFault g && !S.modFault g && !(S.calls g).contains none) = true :=
+    fun g hg => List.all_eq_true.1 h g hg
+  refine ⟨fun g hg => ?_, fun g hg => ?_, fun g hg => ?_, fun g hg => ?_⟩
+  · have := key g hg; simp only [Bool.and_eq_true, Bool.not_eq_true'] at this; exact this.1.1.1
+  · have := key g hg; simp only [Bool.and_eq_true, Bool.not_eq_true'] at this; exact this.1.1.2
+  · have := key g hg; simp only [Bool.and_eq_true, Bool.not_eq_true'] at this; exact this.1.2
+  · have := key g hg; simp only [Bool.and_eq_true, Bool.not_eq_true'] at this
+    intro hc
+    have : (S.calls g).contains none = true := by simpa using hc
+    simp_all
+
 end Repo
